@@ -25,7 +25,7 @@ NORMAL_KINDS = ("n", "T", "F")
 class Node:
     __slots__ = (
         "id", "func", "op", "ast", "stmt", "callee", "awaited", "suspends", "user", "tag", "types",
-        "succ", "pred", "cond", "tok", "kind", "comp", "loops", "awaited_user", "handler_of", "try_id",
+        "succ", "pred", "cond", "tok", "kind", "comp", "loops", "awaited_user", "handler_of", "try_id", "inlined", "env", "root", "benv",
     )
 
     def __init__(self, nid: int, func: FuncInfo, op: str, node: Optional[ast.AST] = None, stmt: Optional[ast.AST] = None):
@@ -50,6 +50,10 @@ class Node:
         self.loops: Tuple = ()  # enclosing loop statements (ast nodes)
         self.handler_of = None
         self.try_id = None
+        self.inlined: Optional[FuncInfo] = None  # call/await step whose package callee's body is spliced in right after it
+        self.root: FuncInfo = func  # the function whose CFG this step belongs to (differs from func inside a spliced body)
+        self.benv = None  # at the step that enters a spliced body: the env of that body
+        self.env = None  # inside a spliced body: parameter name -> (caller function, argument expression, caller env)
 
     @property
     def line(self) -> int:
@@ -88,14 +92,15 @@ class Node:
 
 
 class Ctx:
-    __slots__ = ("ret", "brk", "cont", "raise_", "caught")
+    __slots__ = ("ret", "brk", "cont", "raise_", "caught", "ret_for")
 
-    def __init__(self, ret, brk, cont, raise_, caught=None):
+    def __init__(self, ret, brk, cont, raise_, caught=None, ret_for=None):
         self.ret = ret
         self.brk = brk
         self.cont = cont
         self.raise_ = raise_
         self.caught = caught  # handler classes when inside an except body
+        self.ret_for = ret_for  # spliced into `raise helper(...)`: continuation of one particular `return <exc>` of the helper
 
 
 @dataclass
@@ -205,6 +210,42 @@ class CFG:
         return "\n".join(lines)
 
 
+def bind_args(call: ast.Call, t: FuncInfo, caller: FuncInfo, caller_env):
+    """parameter name -> (caller, argument expression, caller env) for the arguments that can be matched syntactically"""
+    a = t.node.args
+    pos = [p.arg for p in a.posonlyargs + a.args]
+    env = {}
+    if t.cls is not None and t.kind not in ("static",) and pos:
+        recv = call.func.value if isinstance(call.func, ast.Attribute) else None
+        if recv is not None:
+            env[pos[0]] = (caller, recv, caller_env)
+        pos = pos[1:]
+    for i, arg in enumerate(call.args):
+        if isinstance(arg, ast.Starred):
+            break
+        if i < len(pos):
+            env[pos[i]] = (caller, arg, caller_env)
+    names = set(pos) | {p.arg for p in a.kwonlyargs}
+    for kw in call.keywords:
+        if kw.arg is not None and kw.arg in names:
+            env[kw.arg] = (caller, kw.value, caller_env)
+    return env
+
+
+def load_known_funcs() -> Optional[Set[str]]:
+    """The functions the rules were written against (frozen from the pinned tree).  A package function that is NOT in this
+    table is a helper the rules know nothing about: its body is spliced into the CFG of its callers, so extracting code into
+    a new helper (or a new helper's misbehaviour) is analysed as if it were written in place."""
+    import os
+
+    path = os.path.join(os.path.dirname(os.path.abspath(__file__)), "known_funcs.txt")
+    try:
+        with open(path) as fh:
+            return {ln.strip() for ln in fh if ln.strip() and not ln.startswith("#")}
+    except OSError:
+        return None
+
+
 class Analyzer:
     """Builds and caches CFGs and interprocedural summaries for the whole program."""
 
@@ -213,6 +254,10 @@ class Analyzer:
         self.res = Resolver(prog)
         self.hier = ExcHier(prog)
         self._cfgs: Dict[str, CFG] = {}
+        self.known_funcs: Optional[Set[str]] = load_known_funcs()
+        self.inlined_calls: List[Tuple[str, str, int]] = []
+        self.spliced_at: Dict[int, FuncInfo] = {}  # id(call expression) -> helper spliced there
+        self.env_site: Dict[int, int] = {}  # id(env of a spliced body) -> id(call expression)  # (caller, helper) pairs spliced, for the evidence
         self._summ: Dict[str, "Summary"] = {}
         self._summ_busy: Set[str] = set()
 
@@ -225,6 +270,32 @@ class Analyzer:
             g = Builder(self, f).build()
             self._cfgs[f.qual] = g
         return g
+
+    def hide_spliced_helpers(self) -> Set[str]:
+        """Build every CFG; helpers (functions outside the frozen table) whose every mention in the package is a call that
+        was spliced into the caller are analysed only in place and are dropped from `prog.all_functions()`."""
+        if self.known_funcs is None:
+            return set()
+        for f in list(self.prog.functions.values()):
+            self.cfg(f)
+        sites: Dict[str, Set[int]] = {}
+        for caller, helper, call_id in self.inlined_calls:
+            sites.setdefault(helper, set()).add(call_id)
+        hidden: Set[str] = set()
+        if sites:
+            mentions: Dict[str, int] = {}
+            names = {self.prog.functions[q].name: q for q in sites}
+            for m in self.prog.modules.values():
+                for x in ast.walk(m.tree):
+                    nm = x.attr if isinstance(x, ast.Attribute) else x.id if isinstance(x, ast.Name) else None
+                    if nm in names and isinstance(getattr(x, "ctx", None), ast.Load):
+                        mentions[names[nm]] = mentions.get(names[nm], 0) + 1
+            for q, ids in sites.items():
+                same_name = [k for k in self.prog.functions.values() if k.name == self.prog.functions[q].name]
+                if len(same_name) == 1 and mentions.get(q, 0) == len(ids):
+                    hidden.add(q)
+        self.prog.hidden = hidden
+        return hidden
 
     # ------------------------------------------------------------- summaries
     def summary(self, f: FuncInfo) -> "Summary":
@@ -312,12 +383,17 @@ class Builder:
         self.tag_stack: List[Tuple] = []
         self.loop_stack: List[ast.AST] = []
         self._try_counter = 0
+        self.root_f = f
+        self.env = None
+        self.inline_stack: List[str] = []
 
     # --------------------------------------------------------------- helpers
     def mk(self, op: str, node: Optional[ast.AST] = None, stmt: Optional[ast.AST] = None) -> Node:
         n = Node(len(self.g.nodes), self.f, op, node, stmt)
         n.tag = tuple(self.tag_stack)
         n.loops = tuple(self.loop_stack)
+        n.env = self.env
+        n.root = self.root_f
         self.g.nodes.append(n)
         return n
 
@@ -331,7 +407,10 @@ class Builder:
         n = self.g.raise_exits.get(key)
         if n is None:
             saved, self.tag_stack = self.tag_stack, []
+            frame = self._frame()
+            self.f, self.sc, self.env = self.root_f, self.an.scope(self.root_f), None
             n = self.mk("raise_exit")
+            self._restore(frame)
             self.tag_stack = saved
             n.tag = ()
             n.tok, n.kind = tok, kind
@@ -381,7 +460,8 @@ class Builder:
             meth = nm.rpartition(".")[2]
             rt = cal.recv_ty.head if cal.recv_ty is not None else None
             if rt == "dict" and meth == "pop" and len(call.args) == 1 and not call.keywords:
-                out.append(("x", (KEYERROR, True)))
+                if not (cal.recv is not None and self._guarded_member(call, cal.recv, call.args[0])):
+                    out.append(("x", (KEYERROR, True)))
             elif meth in ("pop", "popitem") and (rt in ("set", "dict") or (cal.recv_ty is not None and rt in self.an.prog.classes)) and not call.args:
                 if not self._guarded_by_loop_test(cal.recv):
                     out.append(("x", (KEYERROR, True)))
@@ -444,22 +524,149 @@ class Builder:
     def subscript_raises(self, n: Node, sub: ast.Subscript) -> List[Tuple[str, ExcTok]]:
         t = self.sc.ty(sub.value)
         if t is not None and t.head == "dict":
-            if self._key_known_present(sub.value, sub.slice):
+            if self._key_known_present(sub.value, sub.slice, at=sub):
                 return []
             return [("x", (KEYERROR, True))]
         return []
 
-    def _key_known_present(self, container: ast.AST, key: ast.AST, _depth: int = 0, _visiting: Optional[Set[str]] = None) -> bool:
+    # -- membership guards: `if k in D: ... D[k]` / `if k not in D: return ...` followed by D[k]
+    def _parents(self) -> Dict[int, Tuple[ast.AST, str, int]]:
+        pm = getattr(self.sc, "_parent_map", None)
+        if pm is None:
+            pm = {}
+            stack = [self.f.node]
+            while stack:
+                x = stack.pop()
+                for fld, val in ast.iter_fields(x):
+                    if isinstance(val, list):
+                        for i, ch in enumerate(val):
+                            if isinstance(ch, ast.AST):
+                                pm[id(ch)] = (x, fld, i)
+                                stack.append(ch)
+                    elif isinstance(val, ast.AST):
+                        pm[id(val)] = (x, fld, -1)
+                        stack.append(val)
+            self.sc._parent_map = pm
+        return pm
+
+    _QUIET_CALLS = ("len", "str", "repr", "isinstance", "int", "bool", "type", "id", "cast")
+
+    def _quiet(self, stmts: List[ast.stmt], container_txt: str, key_txt: str) -> bool:
+        """No suspension, no removal from the container and no re-binding of the key in these statements."""
+        for st in stmts:
+            for x in ast.walk(st):
+                if isinstance(x, (ast.Await, ast.Yield, ast.YieldFrom, ast.Delete, ast.AsyncFor, ast.AsyncWith)):
+                    return False
+                if isinstance(x, ast.Call):
+                    fn = x.func
+                    if isinstance(fn, ast.Name) and fn.id in self._QUIET_CALLS:
+                        continue
+                    if isinstance(fn, ast.Attribute) and isinstance(fn.value, ast.Name) and fn.value.id in ("log", "logger", "logging"):
+                        continue
+                    if isinstance(fn, ast.Attribute) and ast.unparse(fn.value) == container_txt and fn.attr in ("get", "keys", "values", "items", "setdefault", "copy"):
+                        continue
+                    return False
+                if isinstance(x, ast.Name) and isinstance(x.ctx, ast.Store) and x.id in (key_txt, container_txt):
+                    return False
+        return True
+
+    @staticmethod
+    def _files_key(st: ast.stmt, ctxt: str, ktxt: str) -> bool:
+        """`D[key] = v` or `D.setdefault(key, v)` as a statement of its own"""
+        if isinstance(st, (ast.Assign, ast.AnnAssign)):
+            tg = st.targets if isinstance(st, ast.Assign) else [st.target]
+            if any(isinstance(t, ast.Subscript) and ast.unparse(t.value) == ctxt and ast.unparse(t.slice) == ktxt for t in tg):
+                return True
+            st_v = getattr(st, "value", None)
+        elif isinstance(st, ast.Expr):
+            st_v = st.value
+        else:
+            return False
+        return isinstance(st_v, ast.Call) and isinstance(st_v.func, ast.Attribute) and st_v.func.attr == "setdefault" and ast.unparse(st_v.func.value) == ctxt \
+            and bool(st_v.args) and ast.unparse(st_v.args[0]) == ktxt
+
+    @staticmethod
+    def _terminates(body: List[ast.stmt]) -> bool:
+        return bool(body) and isinstance(body[-1], (ast.Return, ast.Raise, ast.Continue, ast.Break))
+
+    def _membership(self, test: ast.AST, container_txt: str, key_txt: str) -> Optional[bool]:
+        """True if the test asserts `key in container`, False if it asserts `key not in container`, else None."""
+        if isinstance(test, ast.UnaryOp) and isinstance(test.op, ast.Not):
+            v = self._membership(test.operand, container_txt, key_txt)
+            return None if v is None else not v
+        if isinstance(test, ast.Compare) and len(test.ops) == 1 and ast.unparse(test.left) == key_txt:
+            c = test.comparators[0]
+            ctxt = ast.unparse(c)
+            if isinstance(c, ast.Call) and isinstance(c.func, ast.Attribute) and c.func.attr == "keys" and not c.args:
+                ctxt = ast.unparse(c.func.value)
+            if ctxt == container_txt:
+                if isinstance(test.ops[0], ast.In):
+                    return True
+                if isinstance(test.ops[0], ast.NotIn):
+                    return False
+        return None
+
+    def _guarded_member(self, at: ast.AST, container: ast.AST, key: ast.AST) -> bool:
+        """The step `at` runs only where `key in container` was tested (and nothing since could have changed it)."""
+        pm = self._parents()
+        ctxt, ktxt = ast.unparse(container), ast.unparse(key)
+        cur = at
+        while id(cur) in pm:
+            parent, fld, idx = pm[id(cur)]
+            if isinstance(parent, (ast.FunctionDef, ast.AsyncFunctionDef, ast.Lambda, ast.ClassDef)) and fld != "body":
+                return False
+            if idx >= 0 and isinstance(getattr(parent, fld), list) and fld in ("body", "orelse", "finalbody"):
+                sibs = getattr(parent, fld)
+                before = sibs[:idx]
+                # an earlier `if key not in D: <leave>` in the same block, or an earlier step that files the key
+                for j in range(len(before) - 1, -1, -1):
+                    st = before[j]
+                    if isinstance(st, ast.If) and not st.orelse and self._terminates(st.body) and self._membership(st.test, ctxt, ktxt) is False:
+                        if self._quiet(before[j + 1:], ctxt, ktxt):
+                            return True
+                    files = self._files_key(st, ctxt, ktxt)
+                    if not files and isinstance(st, ast.If) and not st.orelse and self._membership(st.test, ctxt, ktxt) is False and st.body \
+                            and any(self._files_key(x, ctxt, ktxt) for x in st.body) and not self._terminates(st.body):
+                        files = True  # `if key not in D: D[key] = ...`: present afterwards either way
+                    if files and self._quiet(before[j + 1:], ctxt, ktxt):
+                        return True
+                if isinstance(parent, ast.If) and fld in ("body", "orelse"):
+                    m = self._membership(parent.test, ctxt, ktxt)
+                    if m is not None and m == (fld == "body") and self._quiet(before, ctxt, ktxt):
+                        return True
+                if not self._quiet(before, ctxt, ktxt):
+                    return False
+            if isinstance(parent, (ast.FunctionDef, ast.AsyncFunctionDef, ast.Lambda, ast.ClassDef)):
+                return False
+            if isinstance(parent, (ast.For, ast.AsyncFor, ast.While)):
+                return False  # a previous iteration may have changed the container
+            cur = parent
+        return False
+
+    def _key_known_present(self, container: ast.AST, key: ast.AST, _depth: int = 0, _visiting: Optional[Set[str]] = None, at: Optional[ast.AST] = None) -> bool:
         """`for k in D: ... D[k]` and `for k in L: del D[k]` where L only collects such k: the key is one of D's own."""
+        if at is not None and _depth == 0 and self._guarded_member(at, container, key):
+            return True
         if not isinstance(key, ast.Name) or _depth > 3:
             return False
         _visiting = _visiting or set()
         ctxt = ast.unparse(container)
         for how in self.sc.defs.get(key.id, []):
+            items_key = False
+            if how[0] == "elt" and how[2] == 0 and how[1][0] == "iter":
+                # for key, value in D.items()
+                how = how[1]
+                items_key = True
             if how[0] != "iter":
                 return False
             it = how[1]
             base = it
+            if items_key:
+                while isinstance(base, ast.Call) and isinstance(base.func, ast.Name) and base.func.id in ("list", "tuple", "sorted", "iter") and len(base.args) == 1:
+                    base = base.args[0]
+                if not (isinstance(base, ast.Call) and isinstance(base.func, ast.Attribute) and base.func.attr == "items" and not base.args):
+                    return False
+                base = base.func.value
             while isinstance(base, ast.Call) and isinstance(base.func, ast.Name) and base.func.id in ("list", "tuple", "sorted", "set", "iter") and len(base.args) == 1:
                 base = base.args[0]
             if isinstance(base, ast.Call) and isinstance(base.func, ast.Attribute) and base.func.attr == "keys" and not base.args:
@@ -480,13 +687,103 @@ class Builder:
                         elif node.func.attr in ("append", "extend", "insert", "add", "update"):
                             ok = False
                 for h2 in self.sc.defs[base.id]:
-                    v = h2[1] if h2[0] == "assign" else None
+                    v = h2[1] if h2[0] == "assign" else (h2[2] if h2[0] == "ann" else None)
                     if not (isinstance(v, (ast.List, ast.Set)) and not v.elts or (isinstance(v, ast.Call) and isinstance(v.func, ast.Name) and v.func.id in ("list", "set") and not v.args)):
                         ok = False
                 if ok and found:
                     continue
             return False
         return bool(self.sc.defs.get(key.id))
+
+    # ------------------------------------------------------------- inlining
+    def _frame(self):
+        return (self.f, self.sc, self.env, self.inline_stack)
+
+    def _restore(self, frame) -> None:
+        self.f, self.sc, self.env, self.inline_stack = frame
+
+    def _inline_target(self, cal: Optional[Callee], want_async: bool) -> Optional[FuncInfo]:
+        known = self.an.known_funcs
+        if known is None or cal is None or cal.kind != "pkg" or len(cal.targets) != 1:
+            return None
+        t = cal.targets[0]
+        if t.qual in known or t.is_async != want_async or t.qual in self.inline_stack or t.qual == self.root_f.qual or len(self.inline_stack) >= 6:
+            return None
+        if t.kind in ("getter", "setter", "property"):
+            return None
+        for x in self.an.scope(t)._own_nodes():
+            if isinstance(x, (ast.Yield, ast.YieldFrom)):
+                return None  # generators run lazily
+        return t
+
+    def _bind(self, call: ast.Call, t: FuncInfo):
+        return bind_args(call, t, self.f, self.env)
+
+    def _raise_spliced(self, st: ast.Raise, call: ast.Call, t: FuncInfo, ctx: Ctx) -> Node:
+        """`raise helper(...)` with a helper outside the frozen table that builds the exception: the helper's body is spliced
+        in and each of its `return <exc>` statements becomes the raise of that exception (so which class is raised stays
+        a property of the path taken through the helper)."""
+        caller_frame = self._frame()
+        raise_ctx = ctx
+
+        def ret_for(rst: ast.Return) -> Node:
+            saved = self._frame()
+            # the raise step belongs to the helper's frame: its expression is the helper's return value
+            rn = self.mk("raise", ast.copy_location(ast.Raise(exc=rst.value, cause=st.cause), rst), rst)
+            toks = [("x", (c, True)) for c in self.hier.resolve(self.f.module, rst.value)]
+            self._restore(caller_frame)
+            try:
+                self.add_raises(rn, raise_ctx, toks)
+            finally:
+                self._restore(saved)
+            return rn
+
+        n = self.mk("call", call, st)
+        n.callee = self.sc.callee(call)
+        n.inlined = t
+        env = self._bind(call, t)
+        self.an.env_site[id(env)] = id(call)
+        n.benv = env
+        self.an.inlined_calls.append((self.root_f.qual, t.qual, id(call)))
+        self.an.spliced_at[id(call)] = t
+        # a helper that falls off its end returns None: `raise None` is a TypeError
+        fall = self.mk("raise", st, st)
+        self.add_raises(fall, ctx, [("x", ("builtins.TypeError", True))])
+        self.f, self.sc, self.env, self.inline_stack = t, self.an.scope(t), env, self.inline_stack + [t.qual]
+        try:
+            top = Ctx((lambda: fall), None, None, ctx.raise_, None, ret_for)
+            body = self.stmts(list(t.node.body), fall, top)
+        finally:
+            self._restore(caller_frame)
+        self.edge(n, body)
+        its: List[Item] = []
+        for a in call.args:
+            its += linearise(a)
+        for kw in call.keywords:
+            its += linearise(kw.value)
+        return self.items(its, n, ctx, st, False)
+
+    def _inline(self, n: Node, call: ast.Call, t: FuncInfo, k: Node, ctx: Ctx, stmt: ast.AST) -> Node:
+        """Splice the body of helper t after step n: its returns continue at k, its exceptions are routed by the caller."""
+        n.inlined = t
+        n.suspends = False
+        ret = self.mk("inl_ret", call, stmt)
+        ret.inlined = t
+        self.edge(ret, k)
+        env = self._bind(call, t)
+        self.an.env_site[id(env)] = id(call)
+        n.benv = env
+        frame = self._frame()
+        self.an.inlined_calls.append((self.root_f.qual, t.qual, id(call)))
+        self.an.spliced_at[id(call)] = t
+        self.f, self.sc, self.env, self.inline_stack = t, self.an.scope(t), env, self.inline_stack + [t.qual]
+        try:
+            top = Ctx((lambda: ret), None, None, ctx.raise_, None)
+            body = self.stmts(list(t.node.body), ret, top)
+        finally:
+            self._restore(frame)
+        self.edge(n, body)
+        return n
 
     # ------------------------------------------------------------ expressions
     def expr(self, e: Optional[ast.AST], k: Node, ctx: Ctx, stmt: ast.AST) -> Node:
@@ -509,9 +806,21 @@ class Builder:
             if isinstance(e, ast.Call):
                 n = self.mk("call", e, stmt)
                 n.callee = self.sc.callee(e)
+                t = self._inline_target(n.callee, False)
+                if t is not None:
+                    n.cond, n.comp = it.cond, in_comp
+                    k = self._inline(n, e, t, k, ctx, stmt)
+                    continue
                 toks = self.call_raises(n, e, n.callee)
             elif isinstance(e, ast.Await):
                 n = self.mk("await", e, stmt)
+                inner = strip_cast(e.value)
+                t = self._inline_target(self.sc.callee(inner), True) if isinstance(inner, ast.Call) else None
+                if t is not None:
+                    n.awaited = self.sc.callee(inner)
+                    n.cond, n.comp = it.cond, in_comp
+                    k = self._inline(n, inner, t, k, ctx, stmt)
+                    continue
                 toks = self.await_raises(n, e)
             elif isinstance(e, ast.Subscript):
                 n = self.mk("subscript", e, stmt)
@@ -549,6 +858,15 @@ class Builder:
             a = self.f.node.args
             if p is a.vararg or p is a.kwarg:
                 return False
+            if self.env is not None and e.id in self.env and not self.sc.defs.get(e.id):
+                # parameter of a spliced helper: what the caller passes decides
+                caller, arg, cenv = self.env[e.id]
+                frame = self._frame()
+                self.f, self.sc, self.env = caller, self.an.scope(caller), cenv
+                try:
+                    return self._iter_is_user(arg)
+                finally:
+                    self._restore(frame)
             t = self.sc.ann_ty(p.annotation)
             if t is None or t.head in ("Iterable", "Any", "object", "AsyncIterable", "typing.AsyncIterable"):
                 return True
@@ -579,10 +897,14 @@ class Builder:
                 ent = self.expr(st.value, ent, ctx, st)
             return ent
         if isinstance(st, ast.Return):
-            n = self.mk("return", st, st)
-            self.edge(n, ctx.ret())
+            n = self.mk("return" if not self.inline_stack else "ret_inl", st, st)  # only the root function's own returns are `return` steps
+            self.edge(n, ctx.ret_for(st) if ctx.ret_for is not None and st.value is not None else ctx.ret())
             return self.expr(st.value, n, ctx, st)
         if isinstance(st, ast.Raise):
+            if st.exc is not None and isinstance(strip_cast(st.exc), ast.Call):
+                t = self._inline_target(self.sc.callee(strip_cast(st.exc)), False)
+                if t is not None:
+                    return self._raise_spliced(st, strip_cast(st.exc), t, ctx)
             n = self.mk("raise", st, st)
             toks: List[Tuple[str, ExcTok]] = []
             if st.exc is None:
@@ -637,7 +959,7 @@ class Builder:
             head = self.mk("loophead", st, st)
             br = self.mk("test", st.test, st)
             c = self._const_truth(st.test)
-            lctx = Ctx(ctx.ret, (lambda: k), (lambda: head), ctx.raise_, ctx.caught)
+            lctx = Ctx(ctx.ret, (lambda: k), (lambda: head), ctx.raise_, ctx.caught, ctx.ret_for)
             self.loop_stack.append(st)
             br.loops = tuple(self.loop_stack)
             if c is not False:
@@ -652,7 +974,7 @@ class Builder:
             head = self.mk("iter", st, st)
             head.user = self._iter_is_user(st.iter)
             head.suspends = isinstance(st, ast.AsyncFor)
-            lctx = Ctx(ctx.ret, (lambda: k), (lambda: head), ctx.raise_, ctx.caught)
+            lctx = Ctx(ctx.ret, (lambda: k), (lambda: head), ctx.raise_, ctx.caught, ctx.ret_for)
             self.loop_stack.append(st)
             head.loops = tuple(self.loop_stack)
             body = self.stmts(st.body, head, lctx)
@@ -685,7 +1007,7 @@ class Builder:
             for t in st.targets:
                 if isinstance(t, ast.Subscript):
                     ty = self.sc.ty(t.value)
-                    if ty is not None and ty.head == "dict" and not self._key_known_present(t.value, t.slice):
+                    if ty is not None and ty.head == "dict" and not self._key_known_present(t.value, t.slice, at=st):
                         toks.append(("x", (KEYERROR, True)))
             self.add_raises(n, ctx, toks)
             its: List[Item] = []
@@ -709,21 +1031,27 @@ class Builder:
         cache: Dict[Tuple, Node] = {}
         own_loops = list(self.loop_stack)
         own_tags = list(self.tag_stack)
+        own_frame = self._frame()
 
         def copy(tag: Tuple, k_after_fn: Callable[[], Node]) -> Node:
             if tag in cache:
                 return cache[tag]
             k_after = k_after_fn()
-            saved_loops, saved_tags = self.loop_stack, self.tag_stack
+            saved_loops, saved_tags, saved_frame = self.loop_stack, self.tag_stack, self._frame()
             self.loop_stack = list(own_loops)
             self.tag_stack = own_tags + [(try_id, tag)]
+            self._restore(own_frame)
             entry = build(k_after)
             self.loop_stack, self.tag_stack = saved_loops, saved_tags
+            self._restore(saved_frame)
             cache[tag] = entry
             return entry
 
         def reraise(tok: ExcTok, kind: str) -> Node:
+            saved_frame = self._frame()
+            self._restore(own_frame)
             n = self.mk("reraise")
+            self._restore(saved_frame)
             n.tok, n.kind = tok, kind
             n.try_id = try_id
             for tgt in ctx.raise_(tok, kind):
@@ -736,6 +1064,7 @@ class Builder:
             (None if ctx.cont is None else (lambda: copy(("continue", None), ctx.cont))),
             (lambda tok, kind: [copy((kind, tok), (lambda: reraise(tok, kind)))]),
             ctx.caught,
+            (None if ctx.ret_for is None else (lambda rst: copy(("return", id(rst)), (lambda: ctx.ret_for(rst))))),
         )
         k_norm = copy(("n", None), (lambda: k))
         return inner, k_norm
@@ -750,7 +1079,7 @@ class Builder:
         handlers: List[Tuple[List[str], Node]] = []
         for h in st.handlers:
             types = self.hier.resolve(self.f.module, h.type)
-            hctx = Ctx(inner.ret, inner.brk, inner.cont, inner.raise_, types)
+            hctx = Ctx(inner.ret, inner.brk, inner.cont, inner.raise_, types, inner.ret_for)
             body = self.stmts(h.body, k_norm, hctx)
             hn = self.mk("handler", h, st)
             hn.types = types
@@ -769,7 +1098,7 @@ class Builder:
                     out.append(hn)
             return out + inner.raise_(tok, kind)
 
-        bctx = Ctx(inner.ret, inner.brk, inner.cont, body_raise, ctx.caught)
+        bctx = Ctx(inner.ret, inner.brk, inner.cont, body_raise, ctx.caught, inner.ret_for)
         else_entry = self.stmts(st.orelse, k_norm, inner) if st.orelse else k_norm
         tnode = self.mk("try", st, st)
         tnode.try_id = try_id
@@ -804,7 +1133,7 @@ class Builder:
                         return [sup] + ctx.raise_(tok, kind)
                     return ctx.raise_(tok, kind)
 
-                bctx = Ctx(ctx.ret, ctx.brk, ctx.cont, body_raise, ctx.caught)
+                bctx = Ctx(ctx.ret, ctx.brk, ctx.cont, body_raise, ctx.caught, ctx.ret_for)
                 body = self.with_(st, rest, k, bctx)
                 wn = self.mk("with", st, st)
                 wn.try_id = try_id
